@@ -56,15 +56,19 @@ type Encoder struct {
 	w       writer
 	memo    map[starlark.Value]int
 	pickler Pickler
+
+	// inProgress holds the host-pickled values whose arguments are currently being encoded.
+	inProgress map[starlark.Value]struct{}
 }
 
 // NewEncoder creates a new Encoder that writes to the given reader and pickles
 // non-primitive values using the given Pickler.
 func NewEncoder(w io.Writer, pickler Pickler) *Encoder {
 	return &Encoder{
-		w:       writer{w},
-		memo:    map[starlark.Value]int{},
-		pickler: pickler,
+		w:          writer{w},
+		memo:       map[starlark.Value]int{},
+		pickler:    pickler,
+		inProgress: map[starlark.Value]struct{}{},
 	}
 }
 
@@ -221,6 +225,18 @@ func (e *Encoder) encodeComplex(x starlark.Value) {
 		module, name, args, err := e.pickler.Pickle(x)
 		switch err {
 		case nil:
+			// A host-pickled value can only be memoized once it has been rebuilt from its
+			// arguments, so a value that is reachable from its own arguments (a recursive
+			// function, say) would be encoded forever. Break the cycle with a placeholder.
+			if comparable := reflect.TypeOf(x).Comparable(); comparable {
+				if _, busy := e.inProgress[x]; busy {
+					e.w.WriteByte(opNONE)
+					return
+				}
+				e.inProgress[x] = struct{}{}
+				defer delete(e.inProgress, x)
+			}
+
 			e.encodeString(opSHORT_BINUNICODE, opBINUNICODE, module)
 			e.encodeString(opSHORT_BINUNICODE, opBINUNICODE, name)
 			e.w.WriteByte(opSTACK_GLOBAL)
